@@ -344,6 +344,37 @@ pub fn run(ctx: &Ctx) -> (Stats, Report) {
     st.exhaustive_sections.push("all dates x 12 units on Date; all dates x 15 critical times x 12 units on Timestamp and OracleDate".into());
     st.section("all_dates_x_units", &mut mark);
 
+    // call-order histories: descending and scrambled date order, units interleaved (see C10)
+    {
+        let all: Vec<std::sync::Arc<Bounds>> = UNITS.iter().map(|u| std::sync::Arc::new(bounds(*u))).collect();
+        let aref = &all;
+        let s = par_sweep(c.len() as u64, 1 << 12, |range, st| {
+            let (lo, len) = (range.start, range.end - range.start);
+            for pass in 0..2u64 {
+                for k in 0..len {
+                    let i = if pass == 0 { range.end - 1 - k } else { lo + (k * 2731 + 17) % len };
+                    let r = &c.rows[i as usize];
+                    for (ui, u) in UNITS.iter().enumerate() {
+                        let which = ((i + ui as u64 + pass) % 3) as u8;
+                        let t = if which == 0 { 0 } else { [0i64, 43_200_000_000, 86_399_000_000][(i % 3) as usize] };
+                        st.evaluations += 1;
+                        st.nontrivial_enum += 1;
+                        let v = check_round(which, *u, &aref[ui], r.n, t);
+                        if v != Verdict::Pass {
+                            st.verdict(v, i, || Case::new(P, "round", vec![which as i128, u.index() as i128, r.n as i128, t as i128], vec![]));
+                            if st.has_fail() {
+                                return;
+                            }
+                        }
+                    }
+                }
+            }
+        });
+        st.merge(s);
+    }
+    st.exhaustive_sections.push("all dates again in descending and in scrambled order, 12 units interleaved over the three types".into());
+    st.section("call_order_histories", &mut mark);
+
     let days = sampled_days(seed, if ctx.thorough { 300 } else { 12 });
     for u in UNITS {
         let b = bounds(u);
